@@ -27,6 +27,7 @@ UnE(e) ==
   CASE e.t = "int"  -> IntChars(e.n)
     [] e.t = "flt"  -> FloatLit(e)
     [] e.t = "str"  -> IF e.q = "bq" THEN <<"BQ">> \o e.s \o <<"BQ">> ELSE <<"QUOT">> \o EncDQ(e.s) \o <<"QUOT">>
+    [] e.t = "maxint" -> <<"9", "2", "2", "3", "3", "7", "2", "0", "3", "6", "8", "5", "4", "7", "7", "5", "8", "0", "7">>
     [] e.t = "bool" -> IF e.b THEN <<"true">> ELSE <<"false">>
     [] e.t = "id"   -> <<e.id>>
     [] e.t = "not"  -> <<"!">> \o UnE(e.e)
@@ -65,6 +66,7 @@ Unparse(prog) == UnB(prog)
 
 \* ---- AST constructors shared by the generators
 IntL(n)      == [t |-> "int", n |-> n]
+MaxIntLit    == [t |-> "maxint"]           \* the literal 9223372036854775807 (beyond TLC's integers: the model reads it as 2^31 - 1)
 Flt(n, e)   == [t |-> "flt", num |-> n, exp |-> e]
 Str(s)      == [t |-> "str", q |-> "dq", s |-> s]
 BStr(s)     == [t |-> "str", q |-> "bq", s |-> s]
